@@ -101,3 +101,23 @@ Theorem C02_received_blocks_safe : forall r n,
   forall r', blk_update r n = Some r' -> blk_inv r'.
 Proof. exact blk_update_inv. Qed.
 Print Assumptions C02_received_blocks_safe.
+
+(* the number of blocks a body of the peer-declared size has (coap_handle_request_put_block ->
+   check_all_blocks_in): for every Size1 a peer can send and every block size the count is the
+   ceiling of size / block size, so a body is never declared complete - and handed to the
+   application with bytes that were never received - before all of it has arrived *)
+From LibcoapV Require Import Wire.BlockCount Wire.BlockCountProofs.
+Theorem C02_block_count_exact : forall total chunk,
+  0 <= total < U32 -> 16 <= chunk <= 1024 ->
+  let n := bc_count total chunk in
+  total <= n * chunk /\ (0 < total -> (n - 1) * chunk < total) /\ (total = 0 -> n = 0).
+Proof. exact bc_count_exact. Qed.
+Print Assumptions C02_block_count_exact.
+
+(* the expression of the pinned tree narrowed to 32 bits before dividing: within chunk - 1
+   bytes of 2^32 the count collapsed to 0 (repaired: F-C02-6) *)
+Theorem C02_block_count_as_found_refuted :
+  bc_count_as_found 4294967295 64 = 0 /\ bc_count 4294967295 64 = 67108864 /\
+  bc_count_as_found 4294967233 64 = 0 /\ bc_count_as_found 4294967232 64 = 67108863.
+Proof. exact bc_count_as_found_refuted. Qed.
+Print Assumptions C02_block_count_as_found_refuted.
